@@ -4,8 +4,12 @@ Protocol: JSON lines on stdin/stdout (stdout is reserved for the protocol;
 anything the simulated code prints goes to stderr).
 """
 import json
+import faulthandler
 import os
+import signal
 import sys
+
+faulthandler.register(signal.SIGUSR1, all_threads=True)
 import time
 
 sys.path.insert(0, os.path.dirname(os.path.dirname(os.path.abspath(__file__))))
